@@ -744,7 +744,7 @@ Bad == IF s.broken THEN {"NeverBroken"} ELSE {InvNames[i] : i \in {j \in DOMAIN 
 
 \* ------------------------------------------------------------------ export (harness/tlc.py)
 ExportState == PrintT(<<"ST", TLCFP(vw), TLCFP(<<vw, 1>>),
-                        ToJson([s |-> s, version |-> Version, kind |-> Kind,
+                        ToJson([s |-> s, version |-> Version, kind |-> Kind, devs |-> Deviations,
                                 api |-> IF s.broken THEN <<>> ELSE ApiView(s),
                                 tables |-> IF s.broken THEN <<>> ELSE TableView(s),
                                 bad |-> Bad])>>)
